@@ -114,4 +114,11 @@ CLAIMED = {
               "and Done / every Open must return once the stream ended, failed or was cancelled. pubsub and bufferPool are driven directly against models (plus a barrier burst hunting a lost wake-up)."),
         note="liveness is observed as 'returned within the watchdog'; interleavings inside a destination call or between points the harness does not own are only sampled by the stress legs",
     ),
+    "C15": dict(
+        technique="property-based testing with rapid over small concurrent programs; harness-owned cooperative scheduler over the real in-memory store (yield points at every store transaction and blob operation); serializability oracle = set of outcomes of all sequential orders; exhaustive DFS over schedules with <=2 pre-emptions; free-running legs incl. the race detector",
+        text=("Generated programs (2-3 goroutines x 1-3 operations incl. per-goroutine handle I/O) run under a scheduler the harness owns; every explored interleaving's results + final tree must equal some sequential order's. "
+              "Per program either 12 drawn schedules or every schedule with <=2 pre-emptions; an independence leg confines goroutines to disjoint subtrees; free-running legs (hot-file programs, 5 iterations x 20 repetitions, and -race in thorough) look for panics, deadlocks and data races. "
+              "Bounded: programs are sampled; schedules are exhaustive only up to 2 pre-emptions at transaction/blob-operation granularity."),
+        note="operations of different goroutines on the same path or on a path and its ancestor are excluded from the serializability legs while known findings C15:ns:same / C15:ns:parent-child reproduce (operations are multi-transaction: needs a redesign); they remain in the free-running/race legs; a data race report is a violation whose schedule cannot be replayed",
+    ),
 }
